@@ -66,7 +66,17 @@ func vp_C13_verify() {
 	tamper := vpChoice("tamper", "none", "method", "uri", "uri-add-question-mark", "uri-drop-query", "body", "drop-auth", "content-type", "not-local", "key-invalid", "other-default-name")
 	switch tamper {
 	case "method":
-		req.Method = "POST"
+		// any other method token of the same length (so also the signed one in another letter case), or a longer one
+		if vpNondetBool("tampered_method_longer") {
+			req.Method = "POST"
+		} else {
+			m := vpNondetStringN("tampered_method", 3)
+			for i := 0; i < 3; i++ {
+				vpAssume(m[i] > 0x20 && m[i] < 0x7F)
+			}
+			vpAssume(m != method)
+			req.Method = m
+		}
 	case "uri":
 		req.URL.Path = "/_matrix/federation/v1/send/2"
 		req.URL.RawPath = ""
